@@ -132,6 +132,15 @@ class Seq(V):
 
 
 @dataclass
+class Mv(V):
+    """image of an abstract sequence under a comprehension: for the generic element `each` of `src`, under the
+    guards of a case the element is mapped to the case's value; elements failing the `if` clauses are dropped"""
+    src: str
+    cases: list            # [(tuple of guards, V)]
+    filtered: bool = False
+
+
+@dataclass
 class Bsym(V):
     """symbolic boolean: disjunction of guard-conjunctions is not needed in gearpy; one guard"""
     guard: 'G'
@@ -433,6 +442,7 @@ class SX:
         self.model_setters = False         # stores to objects of inexact class run the possible setters for their raises
         self.track_div_zero = False        # record divisions by a possibly-zero number
         self.loop_handler = None           # callable(sx, for_node, state, frame) -> list[State] | None
+        self.eval_comprehensions = False   # evaluate comprehensions / for over concrete lists / match (opt-in)
         self.call_hook = None              # callable(sx, call_node, func_value, args, kwargs, state, frame) -> list[(State,V)] | None
         self.nstates = 0
         self.div_zero_sites = []
@@ -667,6 +677,12 @@ class SX:
                     continue
                 res.extend(self.assign(s.target, r[1], r[0], frame, s.lineno))
             return res
+        if isinstance(s, ast.Match) and self.eval_comprehensions:
+            return self.match_stmt(s, st, frame)
+        if isinstance(s, ast.For) and self.eval_comprehensions:
+            r = self.for_unrolled(s, st, frame)
+            if r is not None:
+                return r
         if isinstance(s, ast.For):
             if self.loop_handler is not None:
                 r = self.loop_handler(self, s, st, frame)
@@ -1015,9 +1031,218 @@ class SX:
             return res
         if isinstance(n, ast.Slice):
             return [(st, Unk('slice:' + ast.unparse(n)))]
+        if isinstance(n, (ast.ListComp, ast.GeneratorExp)) and self.eval_comprehensions:
+            return self.comprehension(n, st, frame)
         if isinstance(n, (ast.ListComp, ast.GeneratorExp, ast.Dict, ast.Lambda, ast.DictComp, ast.SetComp, ast.Set)):
             return [(st, Unk(ast.unparse(n)[:80]))]
         raise CannotDecide(f'expression kind {type(n).__name__}: {ast.unparse(n)[:60]}')
+
+    def comprehension(self, n, st, frame) -> list:
+        """[elt for x in it if c]: unrolled over a concrete list; mapped over the generic element of an
+        abstract sequence (-> Mv)"""
+        if len(n.generators) != 1 or n.generators[0].is_async or not isinstance(n.generators[0].target, ast.Name):
+            raise CannotDecide(f'comprehension shape {ast.unparse(n)[:60]}')
+        g = n.generators[0]
+        var = g.target.id
+        res = []
+        for r in self.eval_x(g.iter, st, frame):
+            if isinstance(r, Outcome):
+                res.append(r)
+                continue
+            s0, it = r
+            saved = s0.env.get(var)
+
+            def restore(s):
+                s = s.copy()
+                if saved is None:
+                    s.env.pop(var, None)
+                else:
+                    s.env[var] = saved
+                return s
+            test = None
+            if g.ifs:
+                test = g.ifs[0] if len(g.ifs) == 1 else ast.copy_location(ast.BoolOp(op=ast.And(), values=list(g.ifs)), n)
+            if isinstance(it, Tv):
+                cur = [(s0, [])]
+                for item in it.items:
+                    nxt = []
+                    for s, acc in cur:
+                        s2 = s.copy()
+                        s2.env[var] = item
+                        if test is not None:
+                            tr, fa, rs = self.branch(test, s2, frame)
+                            res.extend(rs)
+                        else:
+                            tr, fa = [s2], []
+                        for sf in fa:
+                            nxt.append((sf, acc))
+                        for stt in tr:
+                            for e in self.eval_x(n.elt, stt, frame):
+                                if isinstance(e, Outcome):
+                                    res.append(e)
+                                else:
+                                    nxt.append((e[0], acc + [e[1]]))
+                    cur = nxt
+                for s, acc in cur:
+                    res.append((restore(s), Tv(acc)))
+                continue
+            if isinstance(it, (Seq, Mv)):
+                if isinstance(it, Seq):
+                    sources = [((), self.typed_atom(f'each({it.path})', it.elem, f'each({it.path})'))]
+                    src, filt = it.path, False
+                else:
+                    sources, src, filt = it.cases, it.src, it.filtered
+                cases = []
+                for g0, each in sources:
+                    s2 = s0.copy()
+                    for x in g0:
+                        s2 = s2.with_guard(x)
+                        if s2 is None:
+                            break
+                    if s2 is None:
+                        continue
+                    base = len(s0.guards)
+                    s2.env[var] = each
+                    if test is not None:
+                        tr, fa, rs = self.branch(test, s2, frame)
+                        if rs:
+                            raise CannotDecide('comprehension condition can raise')
+                        filt = True
+                    else:
+                        tr = [s2]
+                    for stt in tr:
+                        for e in self.eval_x(n.elt, stt, frame):
+                            if isinstance(e, Outcome):
+                                raise CannotDecide(f'comprehension element can raise: {ast.unparse(n.elt)[:50]}')
+                            cases.append((tuple(e[0].guards[base:]), e[1]))
+                res.append((s0, Mv(src, cases, filt)))
+                continue
+            res.append((s0, Unk(ast.unparse(n)[:80])))
+        return res
+
+    def for_unrolled(self, s: ast.For, st, frame):
+        """for x in <concrete list>: unrolled; None when the iterable is not a concrete list"""
+        if s.orelse or not isinstance(s.target, ast.Name):
+            return None
+        outs = []
+        for r in self.eval_x(s.iter, st, frame):
+            if isinstance(r, Outcome):
+                outs.append(r)
+                continue
+            s0, it = r
+            if not isinstance(it, Tv):
+                return None
+            cur = [s0]
+            for item in it.items:
+                nxt = []
+                for sc in cur:
+                    s2 = sc.copy()
+                    s2.env[s.target.id] = item
+                    for o in self.block(s.body, [s2], frame):
+                        if o.kind in ('fall', 'continue'):
+                            nxt.append(o.state)
+                        elif o.kind == 'break':
+                            outs.append(Outcome(o.state, 'fall'))
+                        else:
+                            outs.append(o)
+                cur = nxt
+            outs.extend(Outcome(sc, 'fall') for sc in cur)
+        return outs
+
+    def match_stmt(self, s: ast.Match, st, frame):
+        res = []
+        for r in self.eval_x(s.subject, st, frame):
+            if isinstance(r, Outcome):
+                res.append(r)
+                continue
+            pending = [r[0]]
+            subj = r[1]
+            for case in s.cases:
+                nxt = []
+                for sc in pending:
+                    m = self.pattern(case.pattern, subj, sc)
+                    if m is None:
+                        nxt.append(sc)
+                        continue
+                    if case.guard is not None:
+                        tr, fa, rs = self.branch(case.guard, m, frame)
+                        res.extend(rs)
+                        nxt.extend(fa)
+                    else:
+                        tr = [m]
+                    if tr:
+                        res.extend(self.block(case.body, tr, frame))
+                pending = nxt
+            res.extend(Outcome(sc, 'fall') for sc in pending)
+        return res
+
+    def pattern(self, p, v, st):
+        """state with the captures bound if the pattern statically matches, None if it statically does not"""
+        if isinstance(p, ast.MatchAs):
+            if p.pattern is not None:
+                st = self.pattern(p.pattern, v, st)
+                if st is None:
+                    return None
+            if p.name is not None:
+                st = st.copy()
+                st.env[p.name] = v
+            return st
+        if isinstance(p, ast.MatchOr):
+            for q in p.patterns:
+                m = self.pattern(q, v, st)
+                if m is not None:
+                    return m
+            return None
+        if isinstance(p, ast.MatchSingleton):
+            if p.value is None:
+                if isinstance(v, NoneV):
+                    return st
+                if isinstance(v, (N, Q, Sv, Bv, Tv, Dyn)):
+                    return None if not isinstance(v, Dyn) else self._undecided(p)
+            if isinstance(v, Bv) and isinstance(p.value, bool):
+                return st if v.b is p.value else None
+            return self._undecided(p)
+        if isinstance(p, ast.MatchValue):
+            c = self.const_value(p.value) if isinstance(p.value, ast.Constant) else None
+            if isinstance(c, N) and isinstance(v, N) and v.term.is_const():
+                return st if v.term.const_value() == c.term.const_value() else None
+            if isinstance(c, Sv) and isinstance(v, Sv):
+                return st if v.s == c.s else None
+            if isinstance(v, (NoneV, Tv)):
+                return None
+            return self._undecided(p)
+        if isinstance(p, ast.MatchSequence):
+            if not isinstance(v, Tv):
+                if isinstance(v, (NoneV, N, Sv, Bv, Q)):
+                    return None
+                return self._undecided(p)
+            stars = [i for i, q in enumerate(p.patterns) if isinstance(q, ast.MatchStar)]
+            items = v.items
+            if not stars:
+                if len(items) != len(p.patterns):
+                    return None
+                pairs = list(zip(p.patterns, items))
+                star = None
+            else:
+                k = stars[0]
+                tail = len(p.patterns) - k - 1
+                if len(items) < k + tail:
+                    return None
+                pairs = list(zip(p.patterns[:k], items[:k])) + (list(zip(p.patterns[k + 1:], items[len(items) - tail:])) if tail else [])
+                star = (p.patterns[k], items[k:len(items) - tail])
+            for q, item in pairs:
+                st = self.pattern(q, item, st)
+                if st is None:
+                    return None
+            if star and star[0].name:
+                st = st.copy()
+                st.env[star[0].name] = Tv(list(star[1]))
+            return st
+        return self._undecided(p)
+
+    @staticmethod
+    def _undecided(p):
+        raise CannotDecide(f'match pattern {ast.unparse(p)[:50]} on a value that is not statically known')
 
     def name(self, ident, st, frame) -> V:
         if ident in st.env:
@@ -1339,7 +1564,14 @@ class SX:
 
     def compare(self, n: ast.Compare, st, frame):
         if len(n.ops) != 1:
-            raise CannotDecide('chained comparison')
+            # a < b < c  ==  a < b and b < c  (the middle operands are names/constants/attribute loads in gearpy)
+            operands = [n.left] + list(n.comparators)
+            parts = [ast.copy_location(ast.Compare(left=a, ops=[op], comparators=[b]), n)
+                     for a, op, b in zip(operands, n.ops, operands[1:])]
+            for mid in operands[1:-1]:
+                if any(isinstance(x, ast.Call) for x in ast.walk(mid)):
+                    raise CannotDecide('chained comparison around a call')
+            return self.eval_x(ast.copy_location(ast.BoolOp(op=ast.And(), values=parts), n), st, frame)
         op = n.ops[0]
         res = []
         for r in self.eval_list([n.left, n.comparators[0]], st, frame):
@@ -1417,6 +1649,8 @@ class SX:
             if len(v.term.n.t) == 1 and v.term.d.is_const() and v.unit is not None and v.unit.sym is not None:
                 return v.unit.sym
             return None
+        if isinstance(v, N) and v.py in ('int', 'float'):
+            return None          # a value known to be a Python number
         if isinstance(v, (N, Dyn)):
             t = v.term
             if len(t.n.t) == 1 and t.d.is_const():
@@ -1622,6 +1856,11 @@ class SX:
                 return [(st, recv)]
         if isinstance(recv, (N,)) and attr == 'take':
             return [(st, recv)]
+        if isinstance(recv, Tv) and attr == 'append' and self.eval_comprehensions and len(args) == 1 \
+                and isinstance(f.value, ast.Name) and isinstance(st.env.get(f.value.id), Tv):
+            s2 = st.copy()
+            s2.env[f.value.id] = Tv(list(recv.items) + [args[0]], recv.kind)
+            return [(s2, NoneV())]
         if isinstance(recv, Tv) and attr == 'append':
             return [(st.with_effect(('list-append', self.show(recv), args, n.lineno)), NoneV())]
         if isinstance(recv, Unk) and recv.text.endswith('__UNITS') and attr == 'keys':
@@ -1673,6 +1912,37 @@ class SX:
                 return [(st, Q(args[0].kind, self.ctx.call(name, [a.term for a in args]), u))]
             if all(isinstance(a, (N, Dyn)) for a in args):
                 return [(st, N(self.ctx.call(name, [a.term for a in args])))]
+        if self.eval_comprehensions and len(args) >= 1 and isinstance(args[0], Tv):
+            items = args[0].items
+            if name == 'len' and len(args) == 1:
+                return [(st, N(Rat.const(len(items)), 'int'))]
+            if name in ('list', 'tuple', 'iter', 'reversed', 'sorted') and len(args) == 1 and name != 'sorted':
+                return [(st, Tv(list(items) if name != 'reversed' else list(reversed(items))))]
+            if name == 'sum' and len(args) == 1:
+                t = Rat.const(0)
+                for i in items:
+                    t = t + self.num_arg(i)
+                return [(st, N(self.ctx.reduce(t)))]
+            if name in ('any', 'all') and len(args) == 1:
+                ts = [self.truth(i) for i in items]
+                if all(isinstance(t, bool) for t in ts):
+                    return [(st, Bv(any(ts) if name == 'any' else all(ts)))]
+                raise CannotDecide(f'{name}() over undecided truth values')
+            if name == 'next':
+                if items:
+                    return [(st, items[0])]
+                if len(args) == 2:
+                    return [(st, args[1])]
+                return [Outcome(st, 'raise', 'StopIteration', n.lineno)]
+        if self.eval_comprehensions and name == 'filter' and len(args) == 2 and isinstance(args[1], Tv):
+            if isinstance(args[0], NoneV):
+                ts = [(i, self.truth(i)) for i in args[1].items]
+                if all(isinstance(t, bool) for _, t in ts):
+                    return [(st, Tv([i for i, t in ts if t]))]
+                raise CannotDecide('filter(None, ...) over undecided truth values')
+        if name == 'bool' and len(args) == 1 and self.eval_comprehensions:
+            t = self.truth(args[0])
+            return [(st, Bv(t) if isinstance(t, bool) else Bsym(t))]
         if name == 'len' and len(args) == 1:
             return [(st, N(Rat.atom(f'len({self.show(args[0])})'), 'int'))]
         if name == 'type' and len(args) == 1 and isinstance(args[0], Ov):
